@@ -71,6 +71,14 @@ func Run(a ConstMatrix, args ...interface{}) (Matrix, Matrix, error) {
   // allocate memory
   if inSitu.L == nil {
     inSitu.L = NullDenseMatrix(t, n, n)
+  } else {
+    // the factor is lower triangular, clear what the buffer holds above
+    // the diagonal
+    for i := 0; i < n; i++ {
+      for j := i+1; j < n; j++ {
+        inSitu.L.At(i, j).SetFloat64(0.0)
+      }
+    }
   }
   if ldl {
     if inSitu.D == nil {
